@@ -299,6 +299,8 @@ pub fn exec_stream(ctx: &mut Ctx, case: &StreamCase, class: &str, check_geometry
                     let (key, _) = crate::ctx::panic_key(api, p);
                     let mut shrunk = case.clone();
                     if ctx.seen(&key) == 0 && !ctx.replay {
+                        let (_, d0) = crate::ctx::panic_key(api, p);
+                        ctx.violation_pending(&key, d0, serde_json::to_value(case).unwrap());
                         shrunk = shrink_stream(case, &key, opts);
                     }
                     let v = serde_json::to_value(&shrunk).unwrap();
